@@ -1,6 +1,62 @@
-import RucteModel
+import RucteProofs.ExecSpec
 
-/-! # C14 — placeholder: theorems are added as they are proved. -/
+/-!
+# C14 — sink failures propagate and the output is always a prefix
+
+`execL sem prog n (lowerList body) env sink` is the meaning of the generated function body
+(every statement ends in `?`), `renderL …` the full rendering; `sem` (the meaning of the user's
+Rust fragments) and the sink schedule are universally quantified.
+-/
 namespace Ructe.C14
-theorem placeholder : True := trivial
+open Nom
+open Esc (Sink IoRes Resp WSpec Benign)
+
+/-- **prefix**: whatever the sink does, what it accepted is a prefix of the full rendering -/
+theorem exec_prefix (sem : Sem) (prog : Prog) (n : Nat) (body : List RS) (env : Env) (s : Sink) (out : Bytes)
+    (h : renderL sem prog n body env = some out) :
+    ∃ k, (execL sem prog n body env s).1.got = s.got ++ out.take k := by
+  have := (exec_realises sem prog n).2.1 body env s
+  rw [h] at this
+  exact this.pre
+
+/-- the function returns `Ok` only if the whole rendering arrived -/
+theorem exec_ok_complete (sem : Sem) (prog : Prog) (n : Nat) (body : List RS) (env : Env) (s : Sink) (out : Bytes)
+    (h : renderL sem prog n body env = some out) (hok : (execL sem prog n body env s).2 = .ok) :
+    (execL sem prog n body env s).1.got = s.got ++ out := by
+  have := (exec_realises sem prog n).2.1 body env s
+  rw [h] at this
+  exact this.all hok
+
+/-- **schedule irrelevant**: partial writes and `Interrupted` do not change the final output -/
+theorem exec_schedule_irrelevant (sem : Sem) (prog : Prog) (n : Nat) (body : List RS) (env : Env) (s : Sink) (out : Bytes)
+    (h : renderL sem prog n body env = some out) (hb : Benign s.sched) :
+    (execL sem prog n body env s).2 = .ok ∧ (execL sem prog n body env s).1.got = s.got ++ out := by
+  have := (exec_realises sem prog n).2.1 body env s
+  rw [h] at this
+  exact ⟨this.ben hb, this.all (this.ben hb)⟩
+
+/-- **stop at the first error**: once a statement has failed, no later statement runs — the
+function returns that error with the sink exactly as the failing statement left it -/
+theorem exec_err_stops (sem : Sem) (prog : Prog) (n : Nat) (st : RS) (rest : List RS) (env : Env) (s s' : Sink)
+    (h : execS sem prog n st env s = (s', .err)) :
+    execL sem prog (n + 1) (st :: rest) env s = (s', .err) := by
+  simp [execL, h]
+
+/-- the same inside loops: a failing iteration ends the loop -/
+theorem iter_err_stops (sem : Sem) (prog : Prog) (n : Nat) (body : List RS) (e : Env) (es : List Env) (s s' : Sink)
+    (h : execL sem prog n body e s = (s', .err)) :
+    execIter sem prog (n + 1) body (e :: es) s = (s', .err) := by
+  simp [execIter, h]
+
+/-- a sink that fails (not benign) and a rendering longer than what it accepted ⇒ an error is returned -/
+theorem exec_incomplete_is_err (sem : Sem) (prog : Prog) (n : Nat) (body : List RS) (env : Env) (s : Sink) (out : Bytes)
+    (h : renderL sem prog n body env = some out)
+    (hshort : (execL sem prog n body env s).1.got ≠ s.got ++ out) :
+    (execL sem prog n body env s).2 = .err := by
+  have := (exec_realises sem prog n).2.1 body env s
+  rw [h] at this
+  cases hres : (execL sem prog n body env s).2 with
+  | err => rfl
+  | ok => exact absurd (this.all hres) hshort
+
 end Ructe.C14
